@@ -178,6 +178,13 @@ fn main() {
         if i % 97 == 0 {
             rep.sample(json!({ "label": case.label, "program": case.prog, "expected": st.expected, "off_circuit": st.off, "circuit": st.circuit, "k": st.k }));
         }
+        if std::env::var("C18_DEBUG").is_ok() {
+            for f in fs {
+                eprintln!("DEBUG {} :: {} :: {}", case.label, f.class, f.what.chars().take(150).collect::<String>().replace('\n', " "));
+            }
+        }
+        let group = case.label.split('/').next().unwrap_or("?").to_string();
+        rep.count(&format!("group[{group}] expected={} off={} circuit={}", st.expected, st.off, st.circuit));
         let mut seen = vec![];
         for f in fs {
             if seen.contains(&f.class) {
